@@ -11,7 +11,7 @@ Definition HeldAlive (s : st) : Prop :=
 Definition SgOk (s : st) : Prop := forall f, sg_fairy s = Some f -> (f < nfairies s)%nat.
 Definition HeldAll (s : st) : Prop := forall r f, r_fairy s r = Some f -> held f s = true.
 Definition Bnd (s : st) : Prop :=
-  FOrig s /\ HeldAlive s /\ SgOk s /\ (taint_close s = false -> HeldAll s).
+  FOrig s /\ HeldAlive s /\ SgOk s /\ (taint_gc s = false -> HeldAll s).
 
 Lemma Mono_FOrig : forall s s', FOrig s -> Mono s s' -> FOrig s'.
 Proof.
@@ -21,9 +21,9 @@ Proof.
 Qed.
 Lemma Mono_SgOk : forall s s', SgOk s -> Mono s s' -> SgOk s'.
 Proof. intros s s' F M f H. destruct M. destruct (m_sg _ H) as [H1|H1]; [apply F in H1; lia|lia]. Qed.
-Lemma Mono_taint : forall s s', Mono s s' -> taint_close s' = false -> taint_close s = false.
+Lemma Mono_taint : forall s s', Mono s s' -> taint_gc s' = false -> taint_gc s = false.
 Proof.
-  intros s s' M H. destruct M. destruct (taint_close s) eqn:E; auto. rewrite m_tc in H; auto.
+  intros s s' M H. destruct M. destruct (taint_gc s) eqn:E; auto. rewrite m_tg in H; auto.
 Qed.
 
 Lemma held_app : forall f l x, existsb (holds f) (l ++ [x]) = existsb (holds f) l || holds f x.
@@ -66,7 +66,8 @@ Qed.
 Lemma rec_close_raise : forall r s e s', r_dbc s r <> None -> rec_close r s = (Raise e, s') -> taint_close s' = true.
 Proof.
   unfold rec_close; intros. destruct (r_dbc s r); [|congruence].
-  destruct (close_connection n s) as [[|e0] s1] eqn:E; inv H0. eapply close_connection_raise; eauto.
+  destruct (close_connection n s) as [[|e0] s1] eqn:E; inv H0.
+  change (taint_close s1 = true). eapply close_connection_raise; eauto.
 Qed.
 Lemma rec_invalidate_raise : forall r soft s e s', rec_invalidate cf r soft s = (Raise e, s') -> taint_close s' = true.
 Proof.
@@ -87,19 +88,29 @@ Proof.
   - dm H; inv H; auto.
 Qed.
 
-(* the weakref callback of fairy f, run on its original record r0 *)
+(* check-in always clears the fairy_ref *)
+Lemma rec_checkin_clears : forall r s x s', rec_checkin cf r true s = (x, s') -> r_fairy s' r = None.
+Proof.
+  unfold rec_checkin; intros r s x s' H. destruct (r_fairy s r) eqn:E.
+  - apply do_return_conn_rfairy in H. rewrite H. sproj. apply upd_same.
+  - inv H. exact E.
+Qed.
+
+(* the weakref callback of fairy f, run on its original record r0: the record is checked in unless a
+   BaseException escaped close() inside the error handler *)
 Lemma finalize_gc_clears : forall f r0 s x s',
-  finalize cf None (Some r0) (Some f) false None s = (x, s') -> taint_close s' = false -> r_fairy s' r0 <> Some f.
+  finalize cf None (Some r0) (Some f) false None s = (x, s') -> taint_gc s' = false -> r_fairy s' r0 <> Some f.
 Proof.
   unfold finalize; intros f r0 s x s' H T.
   destruct (r_fairy s r0) as [g'|] eqn:Ef.
   2:{ cbn in H. inv H. congruence. }
   destruct (Nat.eqb_spec f g').
   2:{ cbn in H. inv H. congruence. }
-  subst g'. cbn [negb] in H. cbv iota in H.
+  subst g'. cbn [negb] in H. cbv iota in H. unfold clear_fairy in H.
   match type of H with (let '(_, _) := ?e in _) = _ => destruct e as [y s1] eqn:E0 end.
-  (* after the middle part: either the record is already checked in, or its fairy_ref is untouched *)
-  assert (A : (r_fairy s1 r0 = None /\ exists e, y = Raise e) \/ (r_fairy s1 = r_fairy s /\ y = Ok tt) \/ taint_close s1 = true).
+  (* after the middle part: the record is already checked in, or its fairy_ref is untouched *)
+  assert (A : (r_fairy s1 r0 = None /\ exists e, y = Raise e) \/ (r_fairy s1 = r_fairy s /\ y = Ok tt) \/
+              (taint_gc s1 = true /\ exists e, y = Raise e)).
   { destruct (r_dbc s r0) as [c|]; [|inv E0; auto].
     match type of E0 with (let '(_, _) := ?e in _) = _ => destruct e as [y1 s2] eqn:E1 end.
     assert (A1 : RecLevel s s2).
@@ -107,35 +118,22 @@ Proof.
       destruct z; inv E1; auto. }
     destruct y1 as [|e]; [inv E0; right; left; destruct A1; auto|].
     match type of E0 with (let '(_, _) := ?e in _) = _ => destruct e as [z s3] eqn:E2 end.
-    cbn [negb andb] in E2.
     pose proof (rec_invalidate_rl _ _ _ _ _ _ E2) as R3.
     assert (Rf : r_fairy s3 = r_fairy s) by (destruct R3, A1; congruence).
     destruct z as [|e2].
-    2:{ inv E0. right; right. eapply rec_invalidate_raise; eauto. }
+    2:{ inv E0. right; right. split; [reflexivity|eauto]. }
     destruct (is_exception e) eqn:Ee; [inv E0; auto|].
     rewrite Rf, Ef in E0.
     destruct (rec_checkin cf r0 true s3) as [w s4] eqn:Ec.
-    assert (B : r_fairy s4 r0 = None).
-    { unfold rec_checkin in Ec. rewrite Rf, Ef in Ec. apply do_return_conn_rfairy in Ec. rewrite Ec.
-      sproj. apply upd_same. }
-    unfold reraise_after in E0. left. destruct w; inv E0; eauto. }
-  destruct A as [[A1 [e ->]]|[[A1 ->]|A1]].
+    pose proof (rec_checkin_clears _ _ _ _ Ec) as B.
+    left. destruct w; inv E0; eauto. }
+  destruct A as [[A1 [e ->]]|[[A1 ->]|[A1 [e ->]]]].
   - inv H. congruence.
   - rewrite A1, Ef in H.
     destruct (rec_checkin cf r0 true s1) as [w s2] eqn:E1.
-    assert (B : r_fairy s2 r0 = None).
-    { unfold rec_checkin in E1. rewrite A1, Ef in E1. apply do_return_conn_rfairy in E1. rewrite E1.
-      sproj. apply upd_same. }
+    pose proof (rec_checkin_clears _ _ _ _ E1) as B.
     destruct w; inv H; congruence.
-  - (* tainted: contradiction with the hypothesis, taint flags are never reset *)
-    exfalso.
-    assert (M : Mono s1 s').
-    { destruct y; [|inv H; apply Mono_refl].
-      match type of H with (let '(_, _) := ?e in _) = _ => destruct e as [w s2] eqn:E1 end.
-      assert (M1 : Mono s1 s2).
-      { destruct (r_fairy s1 r0); [eapply rec_checkin_mono; eauto|inv E1; apply Mono_refl]. }
-      destruct w; inv H; auto. }
-    destruct M. rewrite m_tc in T; auto. discriminate.
+  - inv H. congruence.
 Qed.
 
 Lemma gc_fairy_spec : forall f s, FOrig s -> (f < nfairies s)%nat -> f_dead s f = false ->
@@ -144,7 +142,7 @@ Lemma gc_fairy_spec : forall f s, FOrig s -> (f < nfairies s)%nat -> f_dead s f 
   (forall g, g <> f -> f_dead s' g = f_dead s g) /\
   (forall g, sg_fairy s' = Some g -> sg_fairy s = Some g) /\
   (forall r g, r_fairy s' r = Some g -> r_fairy s r = Some g) /\
-  (taint_close s' = false -> taint_close s = false /\ forall r, r_fairy s' r <> Some f).
+  (taint_gc s' = false -> taint_gc s = false /\ forall r, r_fairy s' r <> Some f).
 Proof.
   intros f s F Hf Hd. unfold gc_fairy. rewrite Hd.
   set (s0 := set_f_dead s (upd (f_dead s) f true)).
@@ -221,9 +219,9 @@ Proof.
            destruct N as [((N1 & N2 & N3) & Ns & Nd)|(N1 & N2 & N3)].
            ++ rewrite N1, N3. split; [apply G; auto|auto].
            ++ split; [lia|auto].
-      * intros T r g Hr. rewrite held_push. change (r_fairy s1 r = Some g) in Hr. change (taint_close s1 = false) in T.
+      * intros T r g Hr. rewrite held_push. change (r_fairy s1 r = Some g) in Hr. change (taint_gc s1 = false) in T.
         destruct (m_fairy _ _ Hr) as [H1|[H1 _]].
-        -- assert (T0 : taint_close s0 = false) by (eapply Mono_taint; eauto).
+        -- assert (T0 : taint_gc s0 = false) by (eapply Mono_taint; eauto).
            rewrite (held_frame _ _ _ m_hold). rewrite (Hh T0 _ _ H1). reflexivity.
         -- destruct N as [((N1 & N2 & N3) & Ns & Nd)|(N1 & N2 & N3)]; [lia|].
            assert (g = f) by lia. subst g. rewrite Nat.eqb_refl. apply orb_true_r.
@@ -294,12 +292,12 @@ Proof.
   rewrite (H a) by (left; auto). cbn. apply IH. intros; apply H; right; auto.
 Qed.
 
-(* no_leak: for every configuration (all five pools), history and fault script: if no
-   BaseException escaped a DBAPI close(), then once every holder has dropped its reference no record
-   is checked out *)
+(* no_leak: for every configuration (all five pools), history and fault script: unless a
+   BaseException escaped close() inside the error handler of _finalize_fairy running as weakref callback
+   (ghost taint_gc), once every holder has dropped its reference no record is checked out *)
 Theorem no_leak : forall fl ops,
   let s := run cf ops (init cf fl) in
-  taint_close s = false -> all_released s -> inuse_count s = O.
+  taint_gc s = false -> all_released s -> inuse_count s = O.
 Proof.
   intros fl ops s T R. destruct (run_Bnd ops _ (Bnd_init fl)) as (F & A & G & H). fold s in F, A, G, H.
   unfold inuse_count. apply count_upto_zero. intros k _. unfold in_use.
